@@ -63,3 +63,35 @@ pub mod names {
     pub type U6000x = generic_array::typenum::operator_aliases::Prod<U1000, U6>;
     pub type U12000x = generic_array::typenum::operator_aliases::Prod<U1000, U12>;
 }
+
+/// Hand-spelled lengths with leading zero digits. Every `UInt<N: ArrayLength, B>` is an `ArrayLength`, so these are legal
+/// lengths (with their own storage shapes) although no typenum alias or type-level arithmetic ever produces them.
+pub mod denorm {
+    use generic_array::typenum::{UInt, UTerm, B0, B1};
+    pub type Z0a = UInt<UTerm, B0>; // "0" = 0
+    pub type Z0b = UInt<Z0a, B0>; // "00" = 0
+    pub type Z1a = UInt<Z0a, B1>; // "01" = 1
+    pub type Z2a = UInt<Z1a, B0>; // "010" = 2
+    pub type Z3b = UInt<UInt<Z0b, B1>, B1>; // "0011" = 3
+    pub type Z5a = UInt<Z2a, B1>; // "0101" = 5
+    pub type Z8a = UInt<UInt<Z2a, B0>, B0>; // "01000" = 8
+}
+
+/// `denorm_match!(k, N, body)`: k in 1..=7 selects one of the spellings above
+#[macro_export]
+macro_rules! denorm_match {
+    ($k:expr, $N:ident, $body:expr) => {
+        match $k {
+            1 => { #[allow(dead_code)] type $N = $crate::lens::denorm::Z0a; $body }
+            2 => { #[allow(dead_code)] type $N = $crate::lens::denorm::Z0b; $body }
+            3 => { #[allow(dead_code)] type $N = $crate::lens::denorm::Z1a; $body }
+            4 => { #[allow(dead_code)] type $N = $crate::lens::denorm::Z2a; $body }
+            5 => { #[allow(dead_code)] type $N = $crate::lens::denorm::Z3b; $body }
+            6 => { #[allow(dead_code)] type $N = $crate::lens::denorm::Z5a; $body }
+            7 => { #[allow(dead_code)] type $N = $crate::lens::denorm::Z8a; $body }
+            other => panic!("no leading-zero spelling number {}", other),
+        }
+    };
+}
+/// (selector, value) of the spellings
+pub const DENORM: &[(u8, usize)] = &[(1, 0), (2, 0), (3, 1), (4, 2), (5, 3), (6, 5), (7, 8)];
